@@ -142,6 +142,12 @@ func (n *LocalNode) RequestToJoin(joiner chord.VNode) (chord.VNode, []chord.VNod
 
 	prevPredecessor = n.predecessor
 
+	// the predecessor pointer is cleared when the predecessor is found dead and is only
+	// set again by the next Notify: we cannot hand off a key range until then
+	if prevPredecessor == nil {
+		return nil, nil, chord.ErrJoinInvalidState
+	}
+
 	// see issue https://github.com/zllovesuki/specter/issues/23
 	if !chord.Between(prevPredecessor.ID(), joiner.ID(), n.ID(), false) {
 		return nil, nil, chord.ErrJoinInvalidSuccessor
